@@ -17,7 +17,7 @@ ASSUMPTIONS = [
     "Decimal/Fraction/float are the symx stand-ins (concrete values here)",
 ]
 OUTSIDE = ["arbitrary numeric spellings of versions and BPM values (representatives only)", "displayed BPM when the chosen source has no BPMS (excluded by the property)",
-           "absence patterns other than none / all / exactly-one-present / exactly-one-absent"]
+           "absence patterns other than none / all / exactly-one-present / exactly-one-absent (thorough: also every pair present)"]
 
 VERSIONS = [None, "", "0.69", "0.7", "0.70", "0.83", "1.0"]
 SPLIT_OK = [False, False, False, True, True, True, True]
@@ -27,7 +27,7 @@ CH_VALS = {"BPMS": "0.000=200.000", "STOPS": "5.000=0.500", "DELAYS": "6.000=0.6
            "TIMESIGNATURES": "0.000=3=4", "TICKCOUNTS": "0.000=2", "COMBOS": "0.000=2", "SPEEDS": "0.000=2.000=0.000=0", "SCROLLS": "0.000=2.000",
            "FAKES": "1.000=1.000", "LABELS": "0.000=x"}
 DBPM = [None, "", "120", "100:200", "*", "abc", "1:x", " 90 "]
-ABSENCE = ["none-absent", "all-absent", "one-present", "one-absent"]
+ABSENCE = ["none-absent", "all-absent", "one-present", "one-absent", "two-present"]
 
 
 def _setup():
@@ -67,7 +67,8 @@ def _build(symx, mods, absence, j):
         chart = SSC.SSCChart()
         chart["STEPSTYPE"] = "dance-single"
         for i, key in enumerate(TIMING_KEYS):
-            present = {"none-absent": True, "all-absent": False, "one-present": i == j, "one-absent": i != j}[absence]
+            present = {"none-absent": True, "all-absent": False, "one-present": i == j, "one-absent": i != j,
+                       "two-present": i in (j % 11, j // 11)}[absence]
             if present:
                 ne[key] = z3.Bool("ne_" + key)
                 chart[key] = _tstr(symx, CH_VALS[key], ne[key])
@@ -183,6 +184,10 @@ def obligations(tier):
         for ab in ("one-present", "one-absent"):
             for j in (range(11) if (tier != "quick" or f == "ob_source") else (0, 1, 6, 10)):
                 obs.append(dict(name=f"{f[3:]}[{ab} {TIMING_KEYS[j]}]", func=f, args=(ab, j), budget_s=b, bounds="as above with exactly one property present / absent"))
+        if tier != "quick" and f == "ob_source":
+            for a in range(11):
+                for c in range(a + 1, 11):
+                    obs.append(dict(name=f"source[two-present {TIMING_KEYS[a]}+{TIMING_KEYS[c]}]", func=f, args=("two-present", a + 11 * c), budget_s=b, bounds="exactly two chart timing properties present, emptiness symbolic"))
     return obs
 
 
@@ -218,7 +223,8 @@ def replay(data):
     elif ck == 2:
         chart = SSCChart(); chart["STEPSTYPE"] = "dance-single"
         for i, key in enumerate(TIMING_KEYS):
-            present = {"none-absent": True, "all-absent": False, "one-present": i == j, "one-absent": i != j}[absence]
+            present = {"none-absent": True, "all-absent": False, "one-present": i == j, "one-absent": i != j,
+                       "two-present": i in (j % 11, j // 11)}[absence]
             if present:
                 chart[key] = CH_VALS[key] if gb("ne_" + key) else ""
                 if gb("ne_" + key):
